@@ -57,6 +57,12 @@ def memberAt (G : Gz) (bs : Bytes) : Option (Nat × Bytes) :=
 def Gz.Local (G : Gz) : Prop :=
   ∀ bs n d, memberAt G bs = some (n, d) → memberAt G (bs.take n) = some (n, d)
 
+/-- a gzip given by a table of members (compressed bytes, decompressed bytes): the member at the head is the first entry
+whose compressed bytes the input starts with.  This is how the driver of corr:split instantiates `Gz.member` from the
+members the harness built; `tableGz_local` (Proofs/C05Split): every such gzip is `Local`. -/
+def tableMember (ms : List (Bytes × Bytes)) (bs : Bytes) : Option (Nat × Bytes) :=
+  ms.findSome? fun m => if m.1.isPrefixOf bs then some (m.1.length, m.2) else none
+
 /-- multistream gunzip of everything that is left: members until the end of the input (end of input = clean end) -/
 def gunzipRest (G : Gz) : Nat → Bytes → Option Bytes
   | 0, _ => none
